@@ -231,3 +231,34 @@ CHECKS["C07"] = NS(
     ],
     PLAN={"quick": [("grid", 8, {}), ("kernels", 8, {"n": 500})], "thorough": [("grid", 8, {}), ("kernels", 16, {"n": 12000})]},
 )
+
+CHECKS["C08"] = NS(
+    MODULE="c08_quantize",
+    LEVEL="exploration",
+    LEVEL_TEXT=(
+        "Structure: Hypothesis draws module trees (Sequential / ModuleList / ModuleDict / custom containers, Linear incl. a user "
+        "subclass, Conv2d over stride/padding/dilation/groups/padding_mode, LayerNorm over shape/affine/bias, eight inert layer kinds, "
+        "a leaf owning a bare Parameter), a weight/activation configuration and an optional module filter; a full snapshot before "
+        "quantize() is diffed against the model after it (exactly the eligible-and-selected modules are replaced by their twin, "
+        "hyper-parameters and float parameters bit-identical, everything else the same object and unchanged). Function: every quantized "
+        "module kind is run against a float64 evaluation of the float functional on the dequantized weight and the (de)quantized input, "
+        "re-quantized with the output scale when activations are on. Exploration."
+    ),
+    LEVEL_NOTE="float64 reference through torch's own functionals (Conv2d._conv_forward of the base class for padding modes); quanto's quantize_activation is used as the projection of inputs (checked by C01)",
+    TECHNIQUE=PBT + "recursive generation of module trees with a structural snapshot-diff oracle; differential oracle against the float functional",
+    RULE=(
+        "structure: recursive tree strategy (<= 8 leaves) x 6 weight qtypes (object or name) x 4 activation settings x filter (none or a random "
+        "subset of the tree's modules) x dtype. function: module kind x hyper-parameters x dtype x weight qtype x activation qtype x input kind "
+        "(float, quantized with the same or another qtype) x scales (ones, drawn, calibrated). Non-trivial: trees of depth >= 2 with an "
+        "ineligible module and (a filter or a LayerNorm); module cases with a non-default hyper-parameter / input kind / batch rank."
+    ),
+    ASSUMPTIONS=[
+        "a root that is itself Linear/Conv2d/LayerNorm is excluded (in-place replacement of the caller's object is impossible); the same module instance registered twice is excluded",
+        "LayerNorm fed a float input is evaluated on that float input (the module does not quantize its input)",
+        "cases whose float module rejects the input are discarded",
+    ],
+    PLAN={
+        "quick": [("structure", 6, {"n": 300}), ("function", 10, {"n": 300})],
+        "thorough": [("structure", 6, {"n": 10000}), ("function", 10, {"n": 15000})],
+    },
+)
